@@ -24,7 +24,7 @@ static void init_alphabets(bool thorough) {
     for (int j = -2; j <= 2; j += 2)
         for (int i = -2; i <= 2; i += 2) L9.push_back(Vec2{(double)i, (double)j});
     L4 = {Vec2{-2, -2}, Vec2{2, -1}, Vec2{0, 1}, Vec2{1, 2}};
-    L5 = {Vec2{-2, -2}, Vec2{2, -2}, Vec2{0, 0}, Vec2{-2, 2}, Vec2{2, 2}};
+    L5 = {Vec2{-2, -2}, Vec2{2, -2}, Vec2{0, 0}, Vec2{-2, 2}, Vec2{1, 0}};
 }
 
 struct Sub {
@@ -257,9 +257,9 @@ static void register_sections(bool thorough) {
                        return true;
                    });
     {
-        const std::vector<Vec2>* L = thorough ? &L9 : &L4;
+        const std::vector<Vec2>* L = thorough ? &L5 : &L4;
         int64_t n = (int64_t)L->size();
-        add_single_sub("bezier5", thorough ? "bezier with 5 control points after the start: 9^5 tuples of the {-2,0,2}^2 sub-lattice" : "bezier with 5 control points after the start: 4^5 tuples of a 4-point sub-lattice",
+        add_single_sub("bezier5", thorough ? "bezier with 5 control points after the start: 5^5 tuples of the sub-lattice {(-2,-2),(2,-2),(0,0),(-2,2),(1,0)}" : "bezier with 5 control points after the start: 4^5 tuples of a 4-point sub-lattice",
                        {NT, 2, 2, n, n, n, n, n}, 100, [L](const std::vector<int>& d, SingleCase& sc) {
                            sc.toli = d[0]; sc.start = STARTS[d[1]];
                            sc.spec.kind = BEZ; sc.spec.rel = d[2];
